@@ -338,7 +338,8 @@ fn run(c: &mut Case) {
                     continue;
                 }
                 (None, other) => {
-                    if f.reads <= k {
+                    // the run met an error of its own (or its end) before the failing read was ever made: nothing to judge
+                    if f.reads_at_first <= k {
                         c.count("fault_not_reached");
                         continue;
                     }
@@ -374,6 +375,8 @@ struct Plain {
     /// a ReadError seen on a later call when the first error was something else (an iterator may report a failed
     /// look-ahead read when it next needs the bytes)
     later_read: Option<ErrRec>,
+    /// source reads made when the run's first error (or its end) was reached — before any continuation
+    reads_at_first: usize,
 }
 
 fn plain_run(mut src: ScriptedRead, cfg: &RCfg, len: usize, fault: Option<(usize, ErrorKind, String)>) -> Plain {
@@ -429,8 +432,9 @@ fn plain_run(mut src: ScriptedRead, cfg: &RCfg, len: usize, fault: Option<(usize
     // the injected error need not be the first thing reported: an iterator may park a failed look-ahead read and report
     // it when it next needs those bytes; a few more calls give it the chance (not under the default limit, see above)
     let mut later_read = None;
+    let reads_at_first = it.get_ref().call;
     if fault_given && caught.is_none() && cfg.max_size != MaxSz::Default && !matches!(first_err, Some(ErrRec::Read { .. })) && it.get_ref().call > 0 {
-        for _ in 0..24 {
+        for _ in 0..(4 * len + 64) {
             it.get_mut().begin_api_call();
             match next_ev(&mut it, step_budget(len, oks.len() + 32)) {
                 Ev::Err(e @ ErrRec::Read { .. }) => {
@@ -447,7 +451,7 @@ fn plain_run(mut src: ScriptedRead, cfg: &RCfg, len: usize, fault: Option<(usize
         }
     }
     let reads = it.get_ref().call;
-    Plain { oks, first_err, caught, reads, later_read }
+    Plain { oks, first_err, caught, reads, later_read, reads_at_first }
 }
 
 // ---------------------------------------------------------------- long-run / deep-nesting probes
